@@ -150,3 +150,49 @@ Proof.
         replace (1 + leading_none r) with (S (leading_none r)) by lia.
         unfold set_items. rewrite D, M. rewrite drop_loop by lia. reflexivity.
 Qed.
+
+(* ---- _add_dead ----------------------------------------------------------------------------------- *)
+Lemma leb_of_nat a b : (Z.of_nat a <=? Z.of_nat b)%Z = (a <=? b).
+Proof.
+  destruct (a <=? b) eqn:C; [apply Z.leb_le; apply Nat.leb_le in C; lia|apply Z.leb_gt; apply Nat.leb_gt in C; lia].
+Qed.
+
+Lemma py_iv_at_wrap (d : list (nat * nat)) (i : nat) :
+  d <> [] ->
+  let j := match i with 0 => length d - 1 | S i' => i' end in
+  py_iv_at d (Z.of_nat i - 1)%Z = nth j d (0, 0) /\ py_pos d (Z.of_nat i - 1)%Z = j.
+Proof.
+  intros Hne. destruct i as [|i']; cbn zeta.
+  - split.
+    + unfold py_iv_at. change (Z.of_nat 0 - 1)%Z with (- (Z.of_nat 0 + 1))%Z. rewrite py_get_from_end.
+      rewrite nth_last. destruct d as [|x d] using rev_ind; [contradiction|].
+      rewrite rev_app_distr, last_last. reflexivity.
+    + unfold py_pos, zlen. change (Z.of_nat 0 - 1)%Z with (-1)%Z. replace (-1 <? 0)%Z with true by reflexivity.
+      destruct d; [contradiction|]. cbn [length]. lia.
+  - replace (Z.of_nat (S i') - 1)%Z with (Z.of_nat i') by lia. split.
+    + assert (F : (Z.of_nat i' <? 0)%Z = false) by (apply Z.ltb_ge; lia).
+      unfold py_iv_at, py_get. rewrite F. rewrite F.
+      rewrite Nat2Z.id. destruct (nth_error d i') as [ab|] eqn:E.
+      * symmetry. apply nth_error_nth. exact E.
+      * symmetry. apply nth_overflow. apply nth_error_None. exact E.
+    + unfold py_pos. replace (Z.of_nat i' <? 0)%Z with false by (symmetry; apply Z.ltb_ge; lia). apply Nat2Z.id.
+Qed.
+
+Theorem source_add_dead s r : src_add_dead s (Z.of_nat r) = set_dead s (add_dead (dead s) r).
+Proof.
+  unfold src_add_dead, add_dead. cbv zeta.
+  assert (IV : py_iv (Z.of_nat r, (Z.of_nat r + 1)%Z) = (r, S r)).
+  { unfold py_iv. cbn [fst snd]. rewrite Nat2Z.id. f_equal. lia. }
+  destruct (dead s) as [|ab t] eqn:D.
+  - cbn [is_nonempty negb]. unfold py_append_iv. rewrite IV. reflexivity.
+  - cbn [is_nonempty negb]. unfold py_bisect_left. rewrite IV.
+    set (d := ab :: t) in *. set (i := bisect_left d (r, S r)).
+    destruct (py_iv_at_wrap d i ltac:(discriminate)) as [A P]. cbn zeta in A, P.
+    set (j := match i with 0 => length d - 1 | S i' => i' end) in *.
+    unfold py_iv_start, py_iv_stop, py_set_iv_start, py_set_iv_stop, py_insert_iv. rewrite A, P, IV.
+    destruct (nth j d (0, 0)) as [ds de]. cbn [fst snd].
+    replace (Z.of_nat r + 1)%Z with (Z.of_nat (S r)) by lia.
+    rewrite !leb_of_nat, !Nat2Z.id.
+    destruct ((r <=? ds) && (ds <=? S r)); [reflexivity|].
+    destruct ((r <=? de) && (de <=? S r)); reflexivity.
+Qed.
